@@ -308,14 +308,70 @@ def normalise_case(case):
     return {"text": text, "mode": mode, "exts": list(exts), "backend": backend, "stage": stage, "kw": dict(kw)}
 
 
+class HarnessError(Exception):
+    """The harness (not the implementation) could not run the case."""
+
+
+_PRISTINE = None     # (directives, roles) registries of docutils as they are WITHOUT a Sphinx application
+
+
+def _pristine_registries():
+    """The in-process Sphinx application registers its directives and roles (`math`, `eq`, `doc`, `figure-md`, ...)
+    in docutils' global registries for as long as it lives.  A plain docutils run never sees those, so the
+    docutils-backend cases are run against the registries as they were before Sphinx was started (otherwise
+    `{eq}`x`` would reach a Sphinx role on a document without a Sphinx environment: an artefact, not a defect)."""
+    global _PRISTINE
+    if _PRISTINE is not None:
+        return _PRISTINE
+    from docutils.parsers.rst import directives, roles
+    from gen import c02_lib as L
+    inst = L.SphinxDriver._inst
+    if inst is None:
+        # Sphinx not started yet in this process: start it now (so the order of cases cannot matter) after
+        # taking the snapshot
+        snap = (dict(directives._directives), dict(roles._roles))
+    else:
+        snap = None
+        try:   # what sphinx.util.docutils.docutils_namespace saved on entry
+            loc = inst._ns.gen.gi_frame.f_locals
+            snap = (dict(loc["_directives"]), dict(loc["_roles"]))
+        except Exception:
+            snap = None
+        if snap is None:
+            def foreign(o):
+                m = getattr(o, "__module__", None) or type(o).__module__ or ""
+                return m.split(".")[0] in ("sphinx", "myst_parser")
+            snap = ({k: v for k, v in directives._directives.items() if not foreign(v)},
+                    {k: v for k, v in roles._roles.items() if not foreign(v)})
+    _PRISTINE = snap
+    return snap
+
+
+class _plain_docutils:
+    def __enter__(self):
+        from docutils.parsers.rst import directives, roles
+        d, r = _pristine_registries()
+        self.saved = (directives._directives, roles._roles)
+        directives._directives, roles._roles = d, r
+
+    def __exit__(self, *a):
+        from docutils.parsers.rst import directives, roles
+        directives._directives, roles._roles = self.saved
+
+
 def produce(case):
     """Run the implementation on a normalised case.  Returns (document, warnings_text); raises what it raises."""
     from gen import c02_lib as L
     text, mode, exts, kw = case["text"], case["mode"], case["exts"], case["kw"]
     if case["backend"] == "docutils":
         f = L.docutils_parse if case["stage"] == "parse" else L.docutils_publish
-        return f(text, mode, exts, **kw)
-    cfg = L.make_config(mode, exts, **kw)
+        with _plain_docutils():
+            return f(text, mode, exts, **kw)
+    try:
+        cfg = L.make_config(mode, exts, **kw)
+    except Exception as e:
+        raise HarnessError(f"configuration rejected: {e!r}") from e
+    _pristine_registries()          # snapshot before the application exists
     drv = L.SphinxDriver.get()
     return (drv.parse if case["stage"] == "parse" else drv.publish)(text, cfg)
 
